@@ -238,6 +238,79 @@ theorem C18_shared_scratch_race :
   · intro σ
     simp [runSeq, runSteps, Step.run, scratchWorker]
 
+/-! ### frames: windows of larger buffers, results handed out earlier, scalars modified "for the duration of the call" -/
+
+/-- **frame**: a call leaves every cell it does not write unchanged. The cells in question are the ones OUTSIDE the documented
+destination: the sentinel elements before / behind a slice argument that is a window of a larger buffer (spare capacity
+included), and the cells of a result that an earlier call handed out. -/
+theorem C18_frame (prog : List Step) (c : Nat) (h : c ∉ writes prog) (σ : State) : runSteps prog σ c = σ c := by
+  induction prog generalizing σ with
+  | nil => rfl
+  | cons s l ih =>
+    have hs : c ≠ s.write := fun e => h (by simp [writes, e])
+    have hl : c ∉ writes l := fun e => h (by simp only [writes, List.map_cons, List.mem_cons]; exact Or.inr e)
+    simp only [runSteps]
+    rw [ih hl]
+    simp [Step.run, hs]
+
+/-- … and under EVERY interleaving of any number of calls none of which writes the cell: a result handed out earlier keeps
+its value whatever the later / concurrent calls on the same state object are -/
+theorem C18_frame_interleave (ts : List Task) (l : List Step) (h : Interleave ts l) (c : Nat)
+    (hc : ∀ t ∈ ts, c ∉ writes t) (σ : State) : runSteps l σ c = σ c := by
+  induction h generalizing σ with
+  | done ts _ => rfl
+  | step pre s t post l _ ih =>
+    have hst : c ∉ writes (s :: t) := hc _ (by simp)
+    have hs : c ≠ s.write := fun e => hst (by simp [writes, e])
+    have ht : c ∉ writes t := fun e => hst (by simp only [writes, List.map_cons, List.mem_cons]; exact Or.inr e)
+    have hc' : ∀ u ∈ pre ++ t :: post, c ∉ writes u := by
+      intro u hu
+      rcases List.mem_append.1 hu with hu | hu
+      · exact hc u (List.mem_append.2 (Or.inl hu))
+      · rcases List.mem_cons.1 hu with hu | hu
+        · exact hu ▸ ht
+        · exact hc u (List.mem_append.2 (Or.inr (List.mem_cons_of_mem _ hu)))
+    simp only [runSteps]
+    rw [ih hc']
+    simp [Step.run, hs]
+
+/-- an opening that accumulates into cell `acc` (its result is handed out as that cell) from the coin in cell `coin` -/
+def opening (coin acc : Nat) : Task := [⟨[coin], acc, fun l => l.headD 0⟩]
+
+/-- the hypothesis is needed (seeded change C18r4-2): a second opening that RECYCLES the accumulator of the first one
+rewrites the result handed out by the first; with a fresh accumulator the first result keeps its value -/
+theorem C18_recycled_result (σ : State) :
+    runSteps (opening 10 0 ++ opening 11 0) σ 0 = σ 11 ∧ runSteps (opening 10 0 ++ opening 11 1) σ 0 = σ 10 := by
+  simp [runSteps, Step.run, opening]
+
+/-- a call that modifies its scalar argument (cell 0) for the duration of the call and restores it on return
+(save in the private cell 1, modify, use, restore) -/
+def transientWorker (out : Nat) : Task :=
+  [⟨[0], 1, fun l => l.headD 0⟩, ⟨[0], 0, fun l => l.headD 0 + 1⟩, ⟨[0], out, fun l => l.headD 0⟩, ⟨[1], 0, fun l => l.headD 0⟩]
+
+/-- another user of the same scalar object (a second caller, or the observer goroutine of the harness) -/
+def scalarReader (out : Nat) : Task := [⟨[0], out, fun l => l.headD 0⟩]
+
+/-- (seeded change C18r3-3) run one after the other, the argument has its value after the call and the other user reads
+that value: before/after snapshots see nothing. But there is a schedule under which the other user reads the MODIFIED
+scalar although the argument is again restored at the end: only an observation made DURING the call shows it. -/
+theorem C18_transient_write_observable :
+    (∀ σ : State, runSeq [transientWorker 20, scalarReader 21] σ 0 = σ 0 ∧
+        runSeq [transientWorker 20, scalarReader 21] σ 21 = σ 0) ∧
+    ∃ l, Interleave [transientWorker 20, scalarReader 21] l ∧
+      ∀ σ : State, runSteps l σ 0 = σ 0 ∧ runSteps l σ 21 = σ 0 + 1 := by
+  refine ⟨fun σ => by simp [runSeq, runSteps, Step.run, transientWorker, scalarReader], ?_⟩
+  refine ⟨[⟨[0], 1, fun l => l.headD 0⟩, ⟨[0], 0, fun l => l.headD 0 + 1⟩, ⟨[0], 21, fun l => l.headD 0⟩,
+           ⟨[0], 20, fun l => l.headD 0⟩, ⟨[1], 0, fun l => l.headD 0⟩], ?_, ?_⟩
+  · exact Interleave.step [] _ [⟨[0], 0, fun l => l.headD 0 + 1⟩, ⟨[0], 20, fun l => l.headD 0⟩, ⟨[1], 0, fun l => l.headD 0⟩]
+        [scalarReader 21] _
+      (Interleave.step [] _ [⟨[0], 20, fun l => l.headD 0⟩, ⟨[1], 0, fun l => l.headD 0⟩] [scalarReader 21] _
+        (Interleave.step [[⟨[0], 20, fun l => l.headD 0⟩, ⟨[1], 0, fun l => l.headD 0⟩]] _ [] [] _
+          (Interleave.step [] _ [⟨[1], 0, fun l => l.headD 0⟩] [[]] _
+            (Interleave.step [] _ [] [[]] _ (Interleave.done _ (by simp))))))
+  · intro σ
+    simp [runSteps, Step.run]
+
 /-! ## (2) sync.Once -/
 
 /-- atomic view: whatever each caller passes to `Do`, all callers observe the value of the first one; an already
